@@ -40,7 +40,7 @@ EXTRA_BASES = [':foo', ':ARG0', ':', ':a-b', ':TOP', ':instance', ':op', ':ARG10
 
 def cases(ctx):
     q = ctx.tier == 'quick'
-    names = M.names(40) + [f'chain{i}' for i in range(10)]
+    names = M.names(40) + [f'chain{i}' for i in range(10)] + ['both']
     for j, name in enumerate(names):
         if ctx.mine(j):
             yield 'model', {'model': name}
@@ -59,7 +59,8 @@ def bases_for(rm):
     out = []
     for b in sorted(bases):
         if rm.defines(b):
-            out.append(b)
+            if not rm.defines(b + '-of'):      # (a table defining b and b-of: b has no inverse spelling, O3)
+                out.append(b)
         elif not b.endswith('-of') and not rm.defines(b + '-of'):
             out.append(b)
     return out
@@ -104,7 +105,7 @@ def oracle(ctx, kind, p):
         ctx.case(p, True)
     elif kind == 'tree':
         rng = ctx.rng('tree', p['i'])
-        name = (M.FIXED + [f'rand{i}' for i in range(8)])[p['i'] % 12]
+        name = (M.FIXED + [f'rand{i}' for i in range(8)] + ['both', 'chain0', 'chain5', 'chain7'])[p['i'] % 16]
         _, m, rm, spec = M.get(name)
         if p['i'] % 3 == 0:
             # model churn: a short-lived model object built from a fresh random table, used once
@@ -122,6 +123,10 @@ def oracle(ctx, kind, p):
                     t = over(t)
                 if r != '/':
                     base, tilde, aln = r.partition('~')
+                    if name.startswith('chain') and rm.normalizations and rng.random() < 0.4:
+                        # under a table with normalisation chains: the keys themselves, several per tree
+                        # (each branch is canonicalised on its own, whatever was seen before)
+                        base = rng.choice(sorted(rm.normalizations))
                     x = rng.random()
                     if x < 0.3:
                         base += '-of-of'
